@@ -1,1 +1,178 @@
-// harnesses for compact (none yet)
+// C13 (layer 2) / C14 (piece B) — btdht's own compact decoding code on every boundary length,
+// all content bytes symbolic, driven through serde's in-memory deserializers (the bencode text
+// parser is not in the path, DESIGN.md F14).
+use super::*;
+use crate::node::NodeHandle;
+use crate::verif::NoMsg;
+use serde::de::value::{BytesDeserializer, SeqDeserializer};
+use std::net::SocketAddr;
+
+fn nodes4(blob: &[u8]) -> Result<Vec<NodeHandle>, NoMsg> {
+    nodes_v4::deserialize(BytesDeserializer::<NoMsg>::new(blob))
+}
+
+fn nodes6(blob: &[u8]) -> Result<Vec<NodeHandle>, NoMsg> {
+    nodes_v6::deserialize(BytesDeserializer::<NoMsg>::new(blob))
+}
+
+fn check_node_v4(n: &NodeHandle, chunk: &[u8]) {
+    let id: [u8; 20] = n.id.into();
+    let mut k = 0;
+    while k < 20 {
+        assert!(id[k] == chunk[k], "C13: compact node id bytes not preserved");
+        k += 1;
+    }
+    match n.addr {
+        SocketAddr::V4(a) => {
+            let o = a.ip().octets();
+            assert!(o[0] == chunk[20] && o[1] == chunk[21] && o[2] == chunk[22] && o[3] == chunk[23],
+                "C13: compact IPv4 address bytes not preserved");
+            assert!(a.port() == ((chunk[24] as u16) << 8 | chunk[25] as u16), "C13: compact port is not big-endian");
+        }
+        SocketAddr::V6(_) => assert!(false, "C13: 26-byte compact node decoded as IPv6"),
+    }
+}
+
+fn check_node_v6(n: &NodeHandle, chunk: &[u8]) {
+    let id: [u8; 20] = n.id.into();
+    let mut k = 0;
+    while k < 20 {
+        assert!(id[k] == chunk[k], "C13: compact node id bytes not preserved");
+        k += 1;
+    }
+    match n.addr {
+        SocketAddr::V6(a) => {
+            let o = a.ip().octets();
+            let mut k = 0;
+            while k < 16 {
+                assert!(o[k] == chunk[20 + k], "C13: compact IPv6 address bytes not preserved");
+                k += 1;
+            }
+            assert!(a.port() == ((chunk[36] as u16) << 8 | chunk[37] as u16), "C13: compact port is not big-endian");
+        }
+        SocketAddr::V4(_) => assert!(false, "C13: 38-byte compact node decoded as IPv4"),
+    }
+}
+
+/// nodes (IPv4): every blob length around the 26-byte rule; accepted iff a multiple of 26.
+#[kani::proof]
+#[kani::unwind(80)]
+#[kani::stub(alloc::fmt::format, crate::verif::stub_fmt_format)]
+fn c13_nodes_v4_lengths() {
+    let blob: [u8; 53] = kani::any();
+    assert!(matches!(nodes4(&blob[..0]), Ok(v) if v.is_empty()), "C13: empty nodes blob not decoded as empty list");
+    assert!(nodes4(&blob[..1]).is_err(), "C13: 1-byte nodes blob accepted");
+    assert!(nodes4(&blob[..25]).is_err(), "C13: 25-byte nodes blob accepted");
+    assert!(nodes4(&blob[..27]).is_err(), "C13: 27-byte nodes blob accepted");
+    assert!(nodes4(&blob[..51]).is_err(), "C13: 51-byte nodes blob accepted");
+    assert!(nodes4(&blob[..53]).is_err(), "C13: 53-byte nodes blob accepted");
+    let one = nodes4(&blob[..26]);
+    assert!(one.is_ok(), "C13: 26-byte nodes blob refused");
+    let one = one.unwrap();
+    assert!(one.len() == 1, "C13: 26-byte nodes blob is not one node");
+    check_node_v4(&one[0], &blob[..26]);
+    let two = nodes4(&blob[..52]);
+    assert!(two.is_ok(), "C13: 52-byte nodes blob refused");
+    let two = two.unwrap();
+    assert!(two.len() == 2, "C13: 52-byte nodes blob is not two nodes");
+    check_node_v4(&two[0], &blob[..26]);
+    check_node_v4(&two[1], &blob[26..52]);
+    kani::cover!(true, "end of harness reached");
+}
+
+/// nodes6 (IPv6): accepted iff a multiple of 38.
+#[kani::proof]
+#[kani::unwind(80)]
+#[kani::stub(alloc::fmt::format, crate::verif::stub_fmt_format)]
+fn c13_nodes_v6_lengths() {
+    let blob: [u8; 77] = kani::any();
+    assert!(matches!(nodes6(&blob[..0]), Ok(v) if v.is_empty()), "C13: empty nodes6 blob not decoded as empty list");
+    assert!(nodes6(&blob[..26]).is_err(), "C13: 26-byte nodes6 blob accepted");
+    assert!(nodes6(&blob[..37]).is_err(), "C13: 37-byte nodes6 blob accepted");
+    assert!(nodes6(&blob[..39]).is_err(), "C13: 39-byte nodes6 blob accepted");
+    assert!(nodes6(&blob[..75]).is_err(), "C13: 75-byte nodes6 blob accepted");
+    assert!(nodes6(&blob[..77]).is_err(), "C13: 77-byte nodes6 blob accepted");
+    let one = nodes6(&blob[..38]);
+    assert!(one.is_ok(), "C13: 38-byte nodes6 blob refused");
+    let one = one.unwrap();
+    assert!(one.len() == 1, "C13: 38-byte nodes6 blob is not one node");
+    check_node_v6(&one[0], &blob[..38]);
+    let two = nodes6(&blob[..76]);
+    assert!(two.is_ok(), "C13: 76-byte nodes6 blob refused");
+    let two = two.unwrap();
+    assert!(two.len() == 2, "C13: 76-byte nodes6 blob is not two nodes");
+    check_node_v6(&two[0], &blob[..38]);
+    check_node_v6(&two[1], &blob[38..76]);
+    kani::cover!(true, "end of harness reached");
+}
+
+fn values_of(elems: Vec<&[u8]>) -> Result<Vec<SocketAddr>, NoMsg> {
+    values::deserialize(SeqDeserializer::<_, NoMsg>::new(elems.into_iter()))
+}
+
+/// values: each element 6 bytes (IPv4) or 18 bytes (IPv6); any other element length is refused.
+#[kani::proof]
+#[kani::unwind(40)]
+#[kani::stub(alloc::fmt::format, crate::verif::stub_fmt_format)]
+fn c13_values_element_lengths() {
+    let a: [u8; 19] = kani::any();
+    let b: [u8; 19] = kani::any();
+    assert!(matches!(values_of(vec![]), Ok(v) if v.is_empty()), "C13: empty values list not decoded as empty");
+    assert!(values_of(vec![&a[..0]]).is_err(), "C13: 0-byte peer accepted");
+    assert!(values_of(vec![&a[..5]]).is_err(), "C13: 5-byte peer accepted");
+    assert!(values_of(vec![&a[..7]]).is_err(), "C13: 7-byte peer accepted");
+    assert!(values_of(vec![&a[..17]]).is_err(), "C13: 17-byte peer accepted");
+    assert!(values_of(vec![&a[..19]]).is_err(), "C13: 19-byte peer accepted");
+    assert!(values_of(vec![&a[..6], &b[..7]]).is_err(), "C13: list with one malformed peer accepted");
+    // mixed families, order preserved
+    let r = values_of(vec![&a[..6], &b[..18]]);
+    assert!(r.is_ok(), "C13: well-formed values refused");
+    let r = r.unwrap();
+    assert!(r.len() == 2, "C13: values count wrong");
+    match r[0] {
+        SocketAddr::V4(x) => {
+            let o = x.ip().octets();
+            assert!(o[0] == a[0] && o[1] == a[1] && o[2] == a[2] && o[3] == a[3], "C13: compact peer IPv4 bytes not preserved");
+            assert!(x.port() == ((a[4] as u16) << 8 | a[5] as u16), "C13: compact peer port is not big-endian");
+        }
+        _ => assert!(false, "C13: 6-byte peer decoded as IPv6"),
+    }
+    match r[1] {
+        SocketAddr::V6(x) => {
+            let o = x.ip().octets();
+            let mut k = 0;
+            while k < 16 {
+                assert!(o[k] == b[k], "C13: compact peer IPv6 bytes not preserved");
+                k += 1;
+            }
+            assert!(x.port() == ((b[16] as u16) << 8 | b[17] as u16), "C13: compact peer port is not big-endian");
+        }
+        _ => assert!(false, "C13: 18-byte peer decoded as IPv4"),
+    }
+    kani::cover!(true, "end of harness reached");
+}
+
+/// encode_socket_addr / decode_socket_addr are inverse for every address and port.
+#[kani::proof]
+#[kani::unwind(20)]
+fn c13_socket_addr_roundtrip() {
+    let v6: bool = kani::any();
+    let ip: [u8; 16] = kani::any();
+    let port: u16 = kani::any();
+    let addr: SocketAddr = if v6 {
+        (std::net::Ipv6Addr::from(ip), port).into()
+    } else {
+        (std::net::Ipv4Addr::new(ip[0], ip[1], ip[2], ip[3]), port).into()
+    };
+    let enc = encode_socket_addr(&addr);
+    assert!(enc.len() == if v6 { 18 } else { 6 }, "C13: compact address has the wrong size");
+    let n = enc.len();
+    assert!(enc[n - 2] == (port >> 8) as u8 && enc[n - 1] == (port & 0xff) as u8, "C13: port not encoded big-endian");
+    let mut k = 0;
+    while k < n - 2 {
+        assert!(enc[k] == ip[k], "C13: address bytes not in network order");
+        k += 1;
+    }
+    assert!(decode_socket_addr(&enc) == Some(addr), "C13: compact address does not round-trip");
+    kani::cover!(true, "end of harness reached");
+}
